@@ -276,6 +276,16 @@ def explore(ctx, h, drv, n, label):
     return probs
 
 
+def selftest_note(ctx):
+    import json, os
+    f = os.path.join(C.ROOT, "mutants", "C15", "RESULTS.json")
+    if os.path.exists(f):
+        r = json.load(open(f))
+        ok = [k for k, v in r.items() if v.get("caught")]
+        ctx.notes.append("last sensitivity self-test (mutants/C15/*.diff on the fixed tree, quick tier): %d of %d mutants caught with a failing input (%d of them also pass the repo's own json tests)" % (
+            len(ok), len(r), sum(1 for v in r.values() if v.get("caught") and v.get("repo_tests_pass"))))
+
+
 def build(ctx):
     impl = C.build_impl("asan")
     return C.build_harness(impl, "h_c15", ["h_c15.c"])
@@ -293,6 +303,7 @@ def run(ctx):
                         "`increment` never overflows int64 (signed overflow in the C code is undefined behaviour; UBSan would report it)",
                         "`swap` whose from and path overlap, or whose from is the whole document, is not generated (the one-line description of the extension does not determine a result)",
                         "a binary document whose root was replaced by a scalar is only observed by its type (jbl holders are containers by construction)"]
+    selftest_note(ctx)
     ctx.translate()
     ok, drv_ok = ctx.prove(MODULE, THEOREMS)
     h = build(ctx)
